@@ -93,23 +93,38 @@ def run(model, rep):
 
 # ---------------------------------------------------------------------- GATE / EFF
 def gate(model, rep):
-    P = Pipeline(model)
-    mi = P.fi
-    rep.count('stages', [s.name for s in P.stages])
-    for st in P.stages:
-        S = st.summary
-        where = mi.loc(st.call)
-        rewrites = bool(S.asdl or S.builds)
-        if st.name in ANNOTATION_ONLY:
-            rep.check(not rewrites, 'C05.EFF', where, src(st.call)[:70], 'writes annotations only (%s)' % sorted(S.ann_w)[:6],
-                      'unconditional stage %s rewrites the tree (stores %s, builds %s): a rewrite happens with every option off' % (st.name, sorted(S.asdl)[:5], sorted(S.builds)[:5]), key='C05.EFF|' + st.name)
-            continue
-        if st.name in DATA_GATED or st.name in ('unparse', '_find_shebang'):
-            continue
-        if st.name not in OPTION_OF_STAGE and rewrites:
-            rep.violation('C05.GATE', where, src(st.call)[:70], 'tree-rewriting stage %s is not switched by any documented option' % st.name, key='C05.GATE|' + st.name)
-    # which stages run for which options: minify() itself is evaluated (pmstatic.apirun), every stage replaced by a recorder
     from .. import apirun
+    from ..callgraph import CallGraph, Effects
+    mi = model.func('python_minifier.minify')
+    cg_ = CallGraph(model)
+    E_ = Effects(model, cg_)
+    r_all = apirun.run(model, kwargs={p: True for p in mi.params if p not in ('source', 'filename', 'preserve_locals', 'preserve_globals')})
+    if r_all.outcome[0] != 'return':
+        raise AnalysisError('UNDECIDED: minify() with every option on -> %s' % (r_all.outcome,))
+    ran = list(dict.fromkeys(r_all.names()))
+    rep.count('stages', ran)
+    quals = {q.rsplit('.', 1)[1]: (kind, q) for q, (kind, _q) in apirun.package_callables(model).items()}
+    for name in ran:
+        if name in ('unparse', '_find_shebang') or name not in quals:
+            continue
+        kind, q = quals[name]
+        if kind == 'stage':
+            S = E_.summary(model.method(q, '__call__'), q)
+            init = model.method(q, '__init__')
+            if init is not None:
+                S.merge(E_.summary(init, q))
+        else:
+            S = E_.summary(model.funcs[q], None)
+        rewrites = bool(S.asdl or S.builds)
+        where = model.funcs[q].loc() if q in model.funcs else model.classes[q].path
+        if name in ANNOTATION_ONLY:
+            rep.check(not rewrites, 'C05.EFF', where, name, 'writes annotations only (%s)' % sorted(S.ann_w)[:6],
+                      'unconditional stage %s rewrites the tree (stores %s, builds %s): a rewrite happens with every option off' % (name, sorted(S.asdl)[:5], sorted(S.builds)[:5]), key='C05.EFF|' + name)
+            continue
+        if name in DATA_GATED:
+            continue
+        if name not in OPTION_OF_STAGE and rewrites:
+            rep.violation('C05.GATE', where, name, 'tree-rewriting stage %s is not switched by any documented option' % name, key='C05.GATE|' + name)
     options = [p for p in mi.params if p not in ('source', 'filename', 'preserve_locals', 'preserve_globals')]
     all_off = {p: False for p in options}
     neutral = ANNOTATION_ONLY | DATA_GATED | {'unparse', '_find_shebang'}
@@ -325,9 +340,10 @@ def debug(model, rep):
 # ---------------------------------------------------------------------- DOC
 def doc(model, rep):
     tq = FILTERING['RemoveLiteralStatements']
-    P = Pipeline(model)
-    st = P.stage('RemoveLiteralStatements')
-    bound_before = st.facts is not None and ('<did:bind_names>', True) in st.facts
+    from .. import apirun
+    r_ = apirun.run(model, kwargs={'remove_literal_statements': True})
+    names_ = r_.names()
+    bound_before = 'RemoveLiteralStatements' in names_ and 'bind_names' in names_ and names_.index('bind_names') < names_.index('RemoveLiteralStatements')
     shapes = {
         'print(__doc__)': lambda: Expr(Call(Name('print'), [Name('__doc__')])),
         'x.__doc__': lambda: Expr(Attr(Name('x'), '__doc__')),
